@@ -72,7 +72,8 @@ fn datetime_to_array<V: ValT>(dt: DateTime) -> [V; 8] {
 /// <https://ijmacd.github.io/rfc3339-iso8601/> for differences.
 /// jq also only parses a very restricted subset of ISO 8601.
 pub fn from_iso8601<V: ValT>(s: &str) -> ValR<V> {
-    timestamp_to_epoch(s.parse().map_err(Error::str)?, s.contains('.'))
+    let ts: Timestamp = s.parse().map_err(Error::str)?;
+    timestamp_to_epoch(ts, ts.subsec_nanosecond() != 0)
 }
 
 /// Format a number as an ISO 8601 timestamp string.
